@@ -56,6 +56,11 @@ func (x *RoundRobin) Set(nodes ...*Node) {
 func (x *RoundRobin) Next() *Node {
 	x.locker.Lock()
 	defer x.locker.Unlock()
-	n := atomic.AddUint32(&x.next, 1)
-	return x.nodes[(int(n)-1)%len(x.nodes)]
+	// the counter holds the position of the next pick and is kept in [0, len):
+	// the former nodes[(int(n)-1)%len] was -1 when the 32-bit counter wrapped to
+	// zero, and a wrap also broke the cycle for list sizes that do not divide 2^32.
+	size := uint32(len(x.nodes))
+	idx := atomic.LoadUint32(&x.next) % size
+	atomic.StoreUint32(&x.next, (idx+1)%size)
+	return x.nodes[idx]
 }
